@@ -1,6 +1,7 @@
 package nodeprops
 
 import (
+	"context"
 	"errors"
 	"fmt"
 	"io"
@@ -945,6 +946,7 @@ func TestC12(t *testing.T) {
 	if shard == 0 && !stuck {
 		c12failedInit(rep, r)
 		c12relife(rep, r)
+		c12silentResolver(rep, r)
 	}
 	rep.Sample(map[string]interface{}{"placement": "scenario=tcp-server point=ch.reader.afterRead occurrence=2 consumer=stopped writers=3 release_delay=200us"})
 	if resume == 0 {
@@ -954,6 +956,60 @@ func TestC12(t *testing.T) {
 }
 
 var stuckFlag int32
+
+// c12silentResolver: client endpoints addressed by host name while the name server does not answer. Close lands during the
+// first lookup or during one of the later attempts; it must not wait for the resolver to give up (5-10 s).
+func c12silentResolver(rep *vh.Report, r *vh.RNG) {
+	old := net.DefaultResolver
+	defer func() { net.DefaultResolver = old }()
+	var pipes []net.Conn
+	var pmu sync.Mutex
+	net.DefaultResolver = &net.Resolver{PreferGo: true, Dial: func(ctx context.Context, network, address string) (net.Conn, error) {
+		c1, c2 := net.Pipe()
+		go func() { _, _ = io.Copy(io.Discard, c2) }() // takes the query, never answers
+		pmu.Lock()
+		pipes = append(pipes, c1, c2)
+		pmu.Unlock()
+		return c1, nil
+	}}
+	defer func() {
+		pmu.Lock()
+		for _, c := range pipes {
+			c.Close()
+		}
+		pmu.Unlock()
+	}()
+	for i := 0; i < 6; i++ {
+		var ep gomavlib.EndpointConf = gomavlib.EndpointUDPClient{Address: fmt.Sprintf("verif-silent-%d.example:5600", i)}
+		if i%2 == 1 {
+			ep = gomavlib.EndpointTCPClient{Address: fmt.Sprintf("verif-silent-%d.example:5600", i)}
+		}
+		node := &gomavlib.Node{Endpoints: []gomavlib.EndpointConf{ep}, Dialect: testDialect, OutVersion: gomavlib.V2, OutSystemID: 1}
+		rep.Eval(1)
+		if err := node.Initialize(); err != nil {
+			rep.Observe("C12 silent resolver: Initialize refused a client endpoint addressed by name: " + err.Error())
+			continue
+		}
+		go func() {
+			for range node.Events() {
+			}
+		}()
+		time.Sleep(time.Duration([]int{5, 40, 150, 2100, 20, 80}[i]) * time.Millisecond)
+		t0 := time.Now()
+		cdone := make(chan struct{})
+		go func() { node.Close(); close(cdone) }()
+		select {
+		case <-cdone:
+			rep.Count("closes_during_a_name_lookup_that_gets_no_answer", 1)
+			if d := time.Since(t0); d > 3*time.Second {
+				rep.Violation("what=close-stuck@name-lookup", fmt.Sprintf("Node.Close took %v while a client endpoint (%T) was looking up a host name that the name server did not answer", d.Round(time.Millisecond), ep), nil)
+			}
+		case <-time.After(20 * time.Second):
+			rep.Violation("what=close-stuck@name-lookup", fmt.Sprintf("Node.Close did not return within 20 s while a client endpoint (%T) was looking up a host name", ep), nil)
+			return
+		}
+	}
+}
 
 // c12relife: one Node value that is initialised, used and closed several times in a row (an application that restarts its
 // link layer). Every life ends like the first: Close returns, the event stream ends, the port is free, writes return.
@@ -1222,6 +1278,8 @@ func c12failedInit(rep *vh.Report, r *vh.RNG) {
 		func(n *gomavlib.Node) { n.StreamRequestEnable, n.StreamRequestFrequency = true, 100000 },
 		func(n *gomavlib.Node) { n.StreamRequestEnable, n.StreamRequestFrequency = true, -5 },
 		func(n *gomavlib.Node) { n.HeartbeatSystemType, n.HeartbeatAutopilotType = 1<<20, -3 },
+		func(n *gomavlib.Node) { n.HeartbeatSystemType = -1 },
+		func(n *gomavlib.Node) { n.HeartbeatAutopilotType = -1 },
 		func(n *gomavlib.Node) {
 			n.OutComponentID = 255
 			n.IdleTimeout = -1
